@@ -119,8 +119,11 @@ def main(tier):
         why = "interpreted by E2 with decided exits in every case" if by_e2 else KNOWN_LOOPS.get(k, "a loop E2 did not reach and that is not listed: its termination argument is missing")
         run.ob("termination", "loop in %s terminates (%s)" % (k, why), by_e2 or k in KNOWN_LOOPS, key="termination|unaccounted loop in " + k,
                detail=why, loc=prog.loc(prog.fns[k]["span"]), nontrivial=("loop", k))
-    run.floor("natural loops found in reachable code", len(loops), 8)
     adaptors = sorted({n for k in reach for (_, _, n) in idx.calls[k] if n.startswith("core::iter::traits::iterator::Iterator::")})
+    # vacuity guard: today's tree has 8 natural loops in reachable code; a loop rewritten with an iterator combinator is counted at its driving call instead
+    DRIVERS = ("try_for_each", "for_each", "fold", "try_fold", "find", "find_map", "any", "all", "last", "count", "position", "nth", "collect", "extend")
+    driven = len([1 for k in reach for (_, _, n) in idx.calls[k] if n.startswith("core::iter::traits::iterator::Iterator::") and n.rsplit("::", 1)[-1] in DRIVERS])
+    run.floor("natural loops (and iterator-driving calls) found in reachable code", len(loops) + driven, 8)
     run.extra["iterator_adaptors_used"] = adaptors
     controls.selftest(run, ['recursion'])
     run.extra["written_argument"] = ("Iterators: each next() moves strictly along parent / next_sibling / previous_sibling (C09 step tables) or along the "
